@@ -17,5 +17,6 @@ CONSTANTS
   FailOdds = 6
   EndOdds = 5
   Weights <- WProofs
+  Scripts <- NoScripts
 INVARIANT Emit
 CHECK_DEADLOCK FALSE
